@@ -1030,6 +1030,8 @@ func callgrindName(names map[string]int, name string) string {
 	if name == "" {
 		return ""
 	}
+	// The format is line based: a name must stay on its line.
+	name = strings.ReplaceAll(strings.ReplaceAll(name, "\n", " "), "\r", " ")
 	if id, ok := names[name]; ok {
 		return fmt.Sprintf("(%d)", id)
 	}
